@@ -438,7 +438,14 @@ class Engine:
                 for f, v in list(o.fields.items()):
                     o.fields[f] = self.havoc_like(p, v, f'{f}')
             elif field == '[*]':
-                raise Unsupported('havoc of container contents')
+                if isinstance(o, SList):
+                    # in-place change of a list: same object, arbitrary new length and contents
+                    f = fresh_fun('contents', I, I)
+                    o.fn = lambda i, f=f: f(i)
+                    o.n = fresh('len', I)
+                    p.pc.append(o.n >= 0)
+                else:
+                    raise Unsupported('havoc of container contents')
             else:
                 if builder is not None:
                     bc = BCtx(p, tag=f'h{next(_hv)}_')
@@ -647,7 +654,15 @@ class Engine:
                 for ph in c.path_assumes:
                     path.assume(self.eval_clause(it, ph, env))
                 for nm, ex in c.ensures:
-                    path.oblige(f'{c.name}#{nm}', self.eval_clause(it, ex, env), kind='ensures', where=ex)
+                    nob = len(path.obligs)
+                    try:
+                        cl = self.eval_clause(it, ex, env)
+                        path.oblige(f'{c.name}#{nm}', cl, kind='ensures', where=ex)
+                    except PyExc as pe:
+                        # the clause is not even defined in this post-state (e.g. it indexes an empty result)
+                        del path.obligs[nob:]
+                        path.oblige(f'{c.name}#{nm}', False, kind='ensures',
+                                    where=f'{ex}   [evaluation raised {pe.cls.name} on this path]')
                 self.frame_obligations(it, c, path, env, old_env, pairs, old_to_live)
             elif outcome == 'loop-step':
                 pass
